@@ -79,7 +79,27 @@ def _run_summary(cfg, workers=1):
         cfg = dict(cfg, num_processors=workers)
     else:
         os.environ.pop("CUPCAKE_ENABLE_MULTIPROCESSING", None)
-    tr = e2e.run(cfg, sync_pool=(workers == 0), record_admm=False)
+    fail_at = cfg.get("fail_in_relabel_of_round")
+    restore = None
+    if fail_at is not None:
+        # an earlier call that fails part-way (after the optimisation of round `fail_at`): what it leaves behind must not matter
+        from fast_ticc import cluster_label_assignment as _cla
+        real = _cla.predict_cluster_labels
+        calls = {"n": 0}
+
+        def failing(*a, **k):
+            calls["n"] += 1
+            if calls["n"] - 1 == fail_at:
+                raise RuntimeError("injected failure of an earlier call")
+            return real(*a, **k)
+        _cla.predict_cluster_labels = failing
+        restore = (_cla, real)
+        cfg = {k: v for k, v in cfg.items() if k != "fail_in_relabel_of_round"}
+    try:
+        tr = e2e.run(cfg, sync_pool=(workers == 0), record_admm=False)
+    finally:
+        if restore:
+            restore[0].predict_cluster_labels = restore[1]
     if not tr.ok:
         return {"ok": False, "exc": type(tr.exc).__name__, "msg": str(tr.exc)[:200]}
     d = _digest_any(tr.result)
